@@ -20,9 +20,13 @@ type workload struct {
 }
 
 // one complete use of a fresh writer and a fresh reader: file bytes and read-back text
-func (wl workload) run() ([]byte, string) {
+func (wl workload) run() ([]byte, string) { return wl.runWith(0, 0) }
+
+// runWith: failAt > 0 makes the sink fail at that write (mode as in zoo-write); the result is then meaningless
+// to the caller, what matters is what the failing instance leaves behind in the process
+func (wl workload) runWith(failAt int, mode byte) ([]byte, string) {
 	ns := nodesOf(wl.z)
-	s := &sink{}
+	s := &sink{failAt: failAt, mode: mode}
 	w, err := wl.z.NewWriter(s, wl.max, wl.codec)
 	if err != nil {
 		return nil, "writer-err"
@@ -112,6 +116,26 @@ func init() {
 			for i := range wls {
 				if d := check(i, "poisoned-pool"); d != "" {
 					return d
+				}
+			}
+		}
+		// (ii-b) other instances FAILED earlier in the process: every workload is run against sinks that fail at
+		// their 2nd, 3rd, 5th, 8th and 12th write (persistently, transiently, after taking the bytes); error paths of one
+		// instance must not disturb what later instances produce
+		for _, k := range []int{2, 3, 5, 8, 12} {
+			for _, mode := range []byte{'z', 'Z', 'f'} {
+				for i := range wls {
+					func() {
+						defer func() { recover() }()
+						wls[i].runWith(k, mode)
+					}()
+				}
+			}
+			if k == 3 || k == 12 {
+				for i := range wls {
+					if d := check(i, "after-failed-writers"); d != "" {
+						return d
+					}
 				}
 			}
 		}
